@@ -85,7 +85,7 @@ theorem pathOnly_eq (b : Url) (rest : Bytes) (q frag : Option Bytes) (hnoq : (0x
 theorem relativeSlash_spec (idna : Idna) (b : Url) (rest : Bytes) (q frag : Option Bytes) (hid : ∀ d, HP.IdnaAt idna d)
     (hnoq : (0x3F : UInt8) ∉ rest)
     (hclean : ∀ sp text v cr, relAuthSlash (isSpecialScheme b.scheme) (rest ++ qs q) = some (sp, text) →
-      authority sp text = some (v, cr) → HS.bracketClean sp false v = true) :
+      authority sp text = some (v, cr) → AdaVerif.Lemmas.BR.bracketOk sp v = true) :
     relativeSlash idna (UR.recOf b) frag (rest ++ qs q) = outOf ((relSlashSpec idna b rest).map (addQF q frag)) := by
   unfold relativeSlash relSlashSpec
   have hsp : (UR.recOf b).special = isSpecialScheme b.scheme := rfl
@@ -119,7 +119,7 @@ theorem relativeSlash_spec (idna : Idna) (b : Url) (rest : Bytes) (q frag : Opti
       have hdw : (rest' ++ qs q).dropWhile (fun c => c == 0x2F || c == 0x5C) = skipSlashes rest' ++ qs q := skipSlashes_qs rest' q
       rw [hdw]
       have hsub : ∀ x ∈ skipSlashes rest', x ∈ rest' := fun x hx => (List.dropWhile_sublist _).subset hx
-      have hcl : ∀ v cr, authority true (skipSlashes rest' ++ qs q) = some (v, cr) → HS.bracketClean true false v = true := by
+      have hcl : ∀ v cr, authority true (skipSlashes rest' ++ qs q) = some (v, cr) → AdaVerif.Lemmas.BR.bracketOk true v = true := by
         intro v cr hv
         apply hclean true (skipSlashes rest' ++ qs q) v cr _ hv
         simp only [relAuthSlash, List.cons_append, h1, ↓reduceIte, hdw]
@@ -131,7 +131,7 @@ theorem relativeSlash_spec (idna : Idna) (b : Url) (rest : Bytes) (q frag : Opti
           cases h : isSpecialScheme b.scheme with
           | false => rfl
           | true => simp [h, h2] at h1
-        have hcl : ∀ v cr, authority false (rest' ++ qs q) = some (v, cr) → HS.bracketClean false false v = true := by
+        have hcl : ∀ v cr, authority false (rest' ++ qs q) = some (v, cr) → AdaVerif.Lemmas.BR.bracketOk false v = true := by
           intro v cr hv
           apply hclean false (rest' ++ qs q) v cr _ hv
           simp [relAuthSlash, hs, h2]
@@ -162,7 +162,7 @@ theorem inherit_addQF (b : Url) (ho : b.isOpaque = false) (q frag : Option Bytes
 theorem relativeScheme_spec (idna : Idna) (b : Url) (hb : BaseOk b) (ho : b.isOpaque = false) (pre : Bytes) (q frag : Option Bytes)
     (hid : ∀ d, HP.IdnaAt idna d) (hnoq : (0x3F : UInt8) ∉ pre)
     (hclean : ∀ sp text v cr, relAuth (UR.recOf b) (pre ++ qs q) = some (sp, text) →
-      authority sp text = some (v, cr) → HS.bracketClean sp false v = true) :
+      authority sp text = some (v, cr) → AdaVerif.Lemmas.BR.bracketOk sp v = true) :
     relativeScheme idna (UR.recOf b) frag (pre ++ qs q) = outOf ((relativeState idna b pre).map (addQF q frag)) := by
   have hsp : (UR.recOf b).special = isSpecialScheme b.scheme := rfl
   have hsch : (UR.recOf b).scheme = b.scheme := rfl
@@ -486,7 +486,7 @@ theorem skipSlashes_qs' (r : Bytes) (q : Option Bytes) :
 /-- **`parse_url_impl<ada::url>(input, &base)` = the Standard's basic URL parser with that base**, for every input and every
     base object that holds a record with the record invariants -/
 theorem machineB_spec (idna : Idna) (b : Url) (hb : BaseOk b) (input : Bytes) (hid : ∀ d, HP.IdnaAt idna d)
-    (hclean : HS.bracketClean (hostStartB (UR.recOf b) input).1 false (hostStartB (UR.recOf b) input).2 = true) :
+    (hclean : BR.bracketOk (hostStartB (UR.recOf b) input).1 (hostStartB (UR.recOf b) input).2 = true) :
     machineB idna (UR.recOf b) input = outOf (parse idna input (some b)) := by
   unfold machineB
   unfold hostStartB authStartB at hclean
@@ -628,7 +628,7 @@ theorem machineB_spec (idna : Idna) (b : Url) (hb : BaseOk b) (input : Bytes) (h
             have hno2 : (0x3F : UInt8) ∉ skipSlashes r2 := fun h => hnoq' (by
               have := (List.dropWhile_sublist _).subset h
               simp [this])
-            have hcl : ∀ v cr, authority true (skipSlashes r2 ++ qs query) = some (v, cr) → HS.bracketClean true false v = true := by
+            have hcl : ∀ v cr, authority true (skipSlashes r2 ++ qs query) = some (v, cr) → AdaVerif.Lemmas.BR.bracketOk true v = true := by
               intro v cr hv
               simp only [hv] at hclean
               exact hclean
@@ -642,7 +642,7 @@ theorem machineB_spec (idna : Idna) (b : Url) (hb : BaseOk b) (input : Bytes) (h
               simp only [ha, hv] at hclean
               exact hclean
         · simp only [hsame, Bool.false_eq_true, ↓reduceIte] at hclean ⊢
-          have hcl : ∀ v cr, authority true (skipAuthoritySlashes (restp ++ qs query)) = some (v, cr) → HS.bracketClean true false v = true := by
+          have hcl : ∀ v cr, authority true (skipAuthoritySlashes (restp ++ qs query)) = some (v, cr) → AdaVerif.Lemmas.BR.bracketOk true v = true := by
             intro v cr hv
             simp only [authText, ↓reduceIte, Option.map_some, hv] at hclean
             exact hclean
@@ -673,7 +673,7 @@ theorem limited_outOf (L : Nat) (input : Bytes) (o : Option Url) : limited L inp
 
 /-- `url::set_href` = the Standard's href setter, within the limit -/
 theorem setHrefR_eq (idna : Idna) (L : Nat) (u : Url) (v : Bytes) (hid : ∀ d, HP.IdnaAt idna d)
-    (hclean : HS.bracketClean (schemeSpecial v) false (hostStart v) = true) :
+    (hclean : AdaVerif.Lemmas.BR.bracketOk (schemeSpecial v) (hostStart v) = true) :
     setHrefR idna L (UR.recOf u) v =
       match parse idna v none with
       | some n => if v.length ≤ L ∧ getHrefSize (UR.recOf n) ≤ L then (UR.recOf n, true) else (UR.recOf u, false)
@@ -726,7 +726,7 @@ theorem parse_port_bound (idna : Idna) (input : Bytes) (base : Option Url) (u : 
 /-- **`url::get_origin` is the Standard's origin serialisation** (the inner parse of a blob URL under the side conditions of
     the parser theorem, stated for the path text) -/
 theorem getOriginR_eq (idna : Idna) (u : Url) (hport : ∀ p, u.port = some p → p < 65536) (hid : ∀ d, HP.IdnaAt idna d)
-    (hclean : u.scheme = bBlob → HS.bracketClean (schemeSpecial u.pathSerialized) false (hostStart u.pathSerialized) = true) :
+    (hclean : u.scheme = bBlob → AdaVerif.Lemmas.BR.bracketOk (schemeSpecial u.pathSerialized) (hostStart u.pathSerialized) = true) :
     getOriginR idna (UR.recOf u) = u.origin idna := by
   unfold getOriginR Url.origin
   have hf := Proto.type_facts u.scheme
@@ -841,7 +841,8 @@ theorem authStartB_sub (b : Rec) (input : Bytes) (sp : Bool) (text : Bytes) (h :
 
 /-- no '[' in the input: the bracket side condition holds, whatever the base -/
 theorem clean_of_no_bracket_base (b : Rec) (input : Bytes) (h : (0x5B : UInt8) ∉ input) :
-    HS.bracketClean (hostStartB b input).1 false (hostStartB b input).2 = true := by
+    BR.bracketOk (hostStartB b input).1 (hostStartB b input).2 = true := by
+  apply BR.bracketOk_of_clean
   apply clean_no_bracket
   intro hm
   apply h
